@@ -11,7 +11,7 @@ EXTENDS Optimizer, TraceLib
 \* Reset carries the configuration of the scenario
 TReset ==
   /\ IsEvent("Reset")
-  /\ phase' = "New" /\ pol' = Ev.pol /\ box' = Ev.box /\ max' = Ev.max
+  /\ phase' = "New" /\ pol' = Ev.pol /\ box' = Ev.box /\ max' = Ev.max /\ mn' = Ev.mn
   /\ obj' = [quad |-> Ev.kind = "quad", inact |-> Ev.inact,
               \* no convergence claim for the line search, nor when only a sub-list of the coordinates is optimised
               \* (block-wise histories: the minimiser of the restricted problem is not the one the driver knows)
@@ -19,8 +19,8 @@ TReset ==
                        ELSE IF Ev.opt \in {"Brent", "GoldenSection"} THEN "x" ELSE "f",
               bnd |-> Ev.opt = "Bfgs"]
   /\ cnt' = 0 /\ steps' = 0 /\ tol' = FALSE /\ s0' = NoRank /\ held' = NoRank /\ pend' = 0 /\ lo' = NoRank /\ touched' = FALSE
-  /\ back' = "New" /\ rep' = NoRep /\ br' = NoRep
-  /\ infeas' = FALSE /\ overrun' = FALSE /\ lateStep' = FALSE /\ badRaise' = FALSE /\ earlyOk' = FALSE
+  /\ back' = "New" /\ stage' = 0 /\ rep' = NoRep /\ br' = NoRep
+  /\ infeas' = FALSE /\ overrun' = FALSE /\ lateStep' = FALSE /\ badRaise' = FALSE /\ earlyOk' = FALSE /\ coarseLate' = FALSE
 
 TOptEarly   == IsEvent("OptEarly")   /\ OptEarly(Ev.r)
 TRebox      == IsEvent("Rebox")      /\ Rebox(Ev.box, Ev.inact)
@@ -29,7 +29,7 @@ TEvals      == IsEvent("Evals")      /\ EvalMany(Ev.pts)
 TInitEnd    == IsEvent("InitEnd")    /\ InitEnd(Ev.r)
 TClone      == IsEvent("Clone")      /\ Clone
 TMStepBegin == IsEvent("MStepBegin") /\ MStepBegin
-TStepDone   == IsEvent("StepDone")   /\ StepDone(Ev.nb, Ev.tol, Ev.fv)
+TStepDone   == IsEvent("StepDone")   /\ StepDone(Ev.nb, Ev.tol, Ev.fv, Ev.itc)
 TMStepEnd   == IsEvent("MStepEnd")   /\ MStepEnd(Ev.r)
 TOptBegin   == IsEvent("OptBegin")   /\ OptBegin(Ev.s0)
 TFinish     == /\ IsEvent("Finish")
@@ -45,11 +45,11 @@ TraceNext == \/ TReset \/ TOptEarly \/ TRebox \/ TInitBegin \/ TEvals \/ TInitEn
 
 TraceInit ==
   /\ l = 1
-  /\ phase = "Dead" /\ pol = "ignore" /\ box = <<>> /\ max = 0
+  /\ phase = "Dead" /\ pol = "ignore" /\ box = <<>> /\ max = 0 /\ mn = 0
   /\ obj = [quad |-> FALSE, inact |-> FALSE, conv |-> "none", bnd |-> FALSE]
   /\ cnt = 0 /\ steps = 0 /\ tol = FALSE /\ s0 = NoRank /\ held = NoRank /\ pend = 0 /\ lo = NoRank /\ touched = FALSE
-  /\ back = "New" /\ rep = NoRep /\ br = NoRep
-  /\ infeas = FALSE /\ overrun = FALSE /\ lateStep = FALSE /\ badRaise = FALSE /\ earlyOk = FALSE
+  /\ back = "New" /\ stage = 0 /\ rep = NoRep /\ br = NoRep
+  /\ infeas = FALSE /\ overrun = FALSE /\ lateStep = FALSE /\ badRaise = FALSE /\ earlyOk = FALSE /\ coarseLate = FALSE
 
 TraceSpec == TraceInit /\ [][TraceNext]_<<vars, l>>
 =============================================================================
